@@ -20,6 +20,9 @@ mod c13_config;
 mod c11_pcicap;
 mod c12_pcibus;
 mod pciref;
+mod c17_vsock;
+mod c18_vsockconn;
+mod vsock_world;
 
 use proto::RunResult;
 use runner::{Ctx, Tier};
@@ -100,6 +103,8 @@ fn main() {
                 "C13" => c13_config::run(&ctx),
                 "C11" => c11_pcicap::run(&ctx),
                 "C12" => c12_pcibus::run(&ctx),
+                "C17" => c17_vsock::run(&ctx),
+                "C18" => c18_vsockconn::run(&ctx),
                 _ => {
                     eprintln!("unknown property {}", prop);
                     std::process::exit(2)
